@@ -5,7 +5,7 @@ import numpy as np
 from .. import core, gen
 
 PROP_FILE = 'Knee/Props/C18.lean'
-PROP_FILES = ['Knee/Props/C18.lean', 'Knee/Props/C18G.lean', 'Knee/Props/C18H.lean', 'Knee/Props/Invariance.lean']
+PROP_FILES = ['Knee/Props/C18.lean', 'Knee/Props/C18G.lean', 'Knee/Props/C18H.lean', 'Knee/Props/C18U.lean', 'Knee/Props/Invariance.lean']
 RULE = ('x-sorted curves on integer/dyadic grids (orientation signs are exact in float64 there): general position, collinear runs, fully collinear, '
         'plateaus, n>=2; planar point sets of >= 3 distinct points (general position and degenerate). Exact comparison of graham_scan_lower/upper/graham_scan '
         'with the Lean model, plus the brute-force specification evaluated on the REAL output (chain from 0 to n-1, strict turns, every point on the right side; '
